@@ -82,7 +82,7 @@ contract(DISC + "Discover._get_device",
          calls_inline=[DISC + "Discover._get_device_info", DISC + "Discover._get_device_class"],
          requires=["(version == 1) == is_xml(data)"],
          cancellation=False,
-         raises={"builtins.OSError": {"when": "version == 1"}},
+         raises={},
          ensures={"device_has_the_source_address": "result is None or result._ip == ip",
                   "ac_devices_are_controllable": "result is None or (isinstance(result, AirConditioner) == (result._type == 0xAC))"},
          notes="C18: with auto_connect off no reply whatsoever makes the per-host task raise, so gather() cannot be aborted by one host")
